@@ -74,6 +74,13 @@ class World:
                 el = self.el[op[1]]
                 if op[2] == "sym":
                     el.init_vars(engine=self.cs)
+                elif op[2] == "same":
+                    # re-initialised with the very variables it holds (so that nothing a later compilation meets is a
+                    # new symbol): its next states are gone all the same
+                    cur = {}
+                    for grp in (el.states, el.actions, el.disturbances):
+                        cur.update(grp or {})
+                    el.init_vars(init_conditions=cur, engine=self.cs)
                 else:
                     el.init_vars(init_conditions=self.numbers(op[1]), engine=self.cs)
                 return "ok"
@@ -143,7 +150,7 @@ def coq_op(op):
     if k == "stepallmixed":
         return "StepAll Symbols"     # (placeholder: histories containing it are not compared with the model)
     if k == "init":
-        return f"InitVars {op[1]}%nat {'Symbols' if op[2] == 'sym' else 'Numbers'}"
+        return f"InitVars {op[1]}%nat {'Symbols' if op[2] in ('sym', 'same') else 'Numbers'}"
     if k == "stepall":
         return f"StepAll {'Symbols' if op[1] == 'sym' else 'Numbers'}"
     if k == "stepel":
@@ -168,7 +175,7 @@ def random_history(rng, maxlen=10):
         r = rng.random()
         if r < 0.25:
             e = rng.choice(sorted(members - {5}))
-            h.append(("init", e, "sym"))
+            h.append(("init", e, "sym" if numeric or rng.random() < 0.7 else "same"))
         elif r < 0.45:
             k = rng.choice(["sym", "sym", "num"])
             h.append(("stepall", k, rng.randrange(3)))
@@ -198,6 +205,8 @@ def directed_histories():
     T = ("tofun",)
     return [
         [T], [("stepall", "sym"), T], [("init", 0, "sym"), T],
+        [("stepall", "sym"), ("init", 2, "same"), T], [("stepall", "sym"), ("init", 0, "same"), T],
+        [("add", 4), ("stepall", "sym"), ("init", 4, "same"), T], [("stepall", "sym"), ("init", 2, "same"), ("stepel", 2), T],
         [("init", 0, "sym"), ("init", 1, "sym"), ("init", 2, "sym"), ("init", 3, "sym"), T],
         [("init", 0, "sym"), ("init", 1, "sym"), ("init", 2, "sym"), ("init", 3, "sym"), ("stepel", 0), T],
         [("init", 0, "sym"), ("init", 1, "sym"), ("init", 2, "sym"), ("init", 3, "sym"), ("stepel", 0), ("stepel", 1), ("stepel", 2), T],
@@ -283,7 +292,9 @@ def run_C19(ctx):
                     elif r != "RuntimeError":
                         out["failures"].append({"key": "C19:error-class", "history": h[:oi + 1], "sym": sym,
                                                 "what": f"{sym}: to_function raised {r} instead of a runtime error"})
-            if models is not None and not any(o[0] == "stepallmixed" for o in h):
+            # (histories with a mixed step or a re-initialisation with the SAME symbols are judged by the direct oracle
+            # only: the model gives every initialisation a new generation of symbols)
+            if models is not None and not any(o[0] == "stepallmixed" or (o[0] == "init" and o[2] == "same") for o in h):
                 # (the set of elements whose symbols are arguments: order is not part of the observable)
                 m = ["function " + ",".join(sorted(x[9:].split(","), key=lambda t: int(t) if t.isdigit() else -1))
                      if x.startswith("function ") else x for x in models[hi]]
